@@ -524,6 +524,11 @@ impl Checker
                     if self.systems[u].alive { "alive" } else { "despawned" },
                     if world_alive { "exists" } else { "is gone" });
                 self.systems[u].alive = world_alive;
+                if !world_alive
+                {
+                    // a system nobody despawned and whose triggers are intact is gone: its private state went with it
+                    self.viol_sys("C13", Some(u as SysUid), format!("system {u} should exist but its entity is gone: its system state (locals, captured values) is lost"));
+                }
                 self.viol_sys("C07", Some(u as SysUid), msg);
             }
             let running = !self.systems[u].open_runs.is_empty();
@@ -788,6 +793,17 @@ impl Checker
                 exp_item = Some(Item::SysEv(*ty, *id));
                 payload = Some(*id);
                 if !self.alive(*s) { self.stale("C18:event_to_dead_system"); }
+            }
+            (Op::SysEventToEntity(e, ty), Resolved::Payload{ id, .. }) =>
+            {
+                // the target is a pool entity, not a system command: the command is aborted (entity gone, or no system
+                // stored on it), nothing runs, the payload is released
+                let e = *e % n_ent;
+                expected = None;
+                kind = Some(HookKind::SystemEvent);
+                exp_item = Some(Item::SysEv(*ty, *id));
+                payload = Some(*id);
+                if self.ent_alive[e as usize] { self.stale("C18:event_to_entity_without_system"); } else { self.stale("C18:event_to_dead_entity_as_system"); }
             }
             (Op::Broadcast(ty), Resolved::Payload{ id, .. }) =>
             {
